@@ -12,7 +12,7 @@ class Problem:
     pass
 
 
-def make_problem(rng, N=None, profile=None, n_offsets=None, poly_trend=None, kkind=None, tmpdir=None):
+def make_problem(rng, N=None, profile=None, n_offsets=None, poly_trend=None, kkind=None, tmpdir=None, lib_units=None):
     """A data set + prior + tagged library. Surveys (if any) are chronological and passed as a list, so the
     known survey-label defect cannot interfere with what these checks decide."""
     pb = Problem()
@@ -67,11 +67,41 @@ def make_problem(rng, N=None, profile=None, n_offsets=None, poly_trend=None, kki
     pb.du = dspec["unit"]
     pb.data = gen.build_data(dspec)
     pb.prior = gen.build_prior(ps)
-    pb.lib = gen.build_samples(rows, units={"s": pb.du}, ln_prior=True)
+    # library columns: the kernel's internal units (rows can then be compared bitwise), or - when asked for -
+    # other equivalent units (comparisons become physical, tolerances widen, see `pb.exact`)
+    if lib_units == "random":
+        lib_units = {"P": str(rng.choice(["yr", "h"])), "omega": "deg", "M0": "deg",
+                     "s": str(rng.choice([u_ for u_ in gen.VEL_UNITS if u_ != pb.du]))}
+        for k in list(lib_units):
+            if rng.random() < 0.3:
+                del lib_units[k]
+        if not lib_units:
+            lib_units = {"s": "m/s" if pb.du != "m/s" else "km/s"}
+    pb.lib_units = dict(lib_units) if lib_units else None
+    pb.exact = pb.lib_units is None
+    units = {"s": pb.du}
+    if pb.lib_units:
+        units.update(pb.lib_units)
+    pb.lib = gen.build_samples(rows, units=units, ln_prior=True)
     pb.s_seen = pb.lib["s"].to_value(gen.U(pb.du))
     pb.lin = gen.linear_problem(dspec, ps)
     pb.tagP = np.asarray(pb.lib["P"].to_value("d"))
     return pb
+
+
+def tags_of(pb, P_day):
+    """Library row numbers of periods (bitwise when the library is in internal units, nearest otherwise).
+    Returns (tags, ok) with ok[i] False when P_day[i] is no library row's period."""
+    P_day = np.atleast_1d(np.asarray(P_day, dtype=float))
+    N = pb.N
+    if pb.exact:
+        t_ = np.searchsorted(pb.tagP, P_day)
+        ok = (t_ < N) & (pb.tagP[np.minimum(t_, N - 1)] == P_day)
+        return np.minimum(t_, N - 1), ok
+    lt = np.log(pb.tagP)
+    t_ = np.array([int(np.argmin(np.abs(lt - np.log(x)))) if x > 0 else 0 for x in P_day], dtype=int)
+    ok = np.abs(P_day / pb.tagP[t_] - 1) < 1e-11
+    return t_, ok
 
 
 def lib_file(pb, tmpdir, name="lib.hdf5"):
@@ -87,6 +117,7 @@ class Inject:
     Also logs, for every likelihood evaluation the sampler requests, which library rows it covered."""
     active = None
     tagP = None          # set by the driver: periods of the library rows (tags)
+    tagger = None        # optional callable P[day] -> library row numbers (libraries not in internal units)
     EVAL_LOG = []        # list of arrays of library row numbers, one per evaluation call
 
     @classmethod
@@ -100,7 +131,8 @@ class Inject:
         def marginal_ln_likelihood_inmem(joker_helper, prior_samples_batch):
             ll = o1(joker_helper, prior_samples_batch)
             if cls.tagP is not None:
-                cls.EVAL_LOG.append(np.searchsorted(cls.tagP, np.asarray(prior_samples_batch)[:, 0]))
+                Pb = np.asarray(prior_samples_batch)[:, 0]
+                cls.EVAL_LOG.append(cls.tagger(Pb) if cls.tagger is not None else np.searchsorted(cls.tagP, Pb))
             if cls.active is not None:
                 tags = cls.active["tag_of_P"](np.asarray(prior_samples_batch)[:, 0])
                 ll = cls.active["fn"](tags, np.array(ll, copy=True))
@@ -133,7 +165,7 @@ def make_injection(rng, pb, kind):
     tagP = pb.tagP
 
     def tag_of_P(P):
-        return np.searchsorted(tagP, P)
+        return tags_of(pb, P)[0]
     if kind == "neg-inf":
         bad = set(rng.choice(N, size=max(1, min(N - 1, int(N * rng.uniform(0.05, 0.6)))), replace=False).tolist()) if N > 1 else set()
 
@@ -153,11 +185,11 @@ def make_injection(rng, pb, kind):
 
 
 # ---------------------------------------------------------------- acceptance rule (C02)
-def expected_acceptance(ll_eval, u, max_post):
+def expected_acceptance(ll_eval, u, max_post, border_eps=1e-13):
     with np.errstate(all="ignore"):
         ratio = np.exp(ll_eval - np.max(ll_eval))
     acc = np.where(ratio > u)[0]
-    border = int(np.sum(np.abs(ratio - u) < 1e-13))
+    border = int(np.sum(np.abs(ratio - u) < border_eps))
     if max_post is not None:
         acc = acc[:max_post]
     return acc, border, ratio
@@ -174,14 +206,39 @@ def check_rejection_history(pb, opts, out, lls_all, events, ll_lib, expect_lls=T
     n_eval = N if n_prior is None else int(n_prior)
     choices = [e for e in events if e["op"] == "choice" and e["gen"] == "parent"]
     unis = [e for e in events if e["op"] == "uniform" and e["gen"] == "parent"]
-    if randomize:
+    idx_inmem = None
+    if opts["in_memory"] and (opts.get("randomize_prior_order") or opts.get("n_prior_samples")):
+        # documented as file options: in memory they may be ignored (all rows, library order) or honoured;
+        # if an ordering draw was made, follow it (a shuffled 2-D array names its rows through the period tags)
+        perms = [e for e in events if e["op"] in ("permutation", "choice", "shuffle") and e["gen"] == "parent"]
+        if len(perms) == 1:
+            res = np.asarray(perms[0]["result"])
+            if res.ndim == 2:
+                tg, okk = tags_of(pb, res[:, 0])
+                idx_inmem = tg if np.all(okk) else None
+            elif res.ndim == 1 and res.dtype.kind in "iu":
+                idx_inmem = res.astype(int)
+            if idx_inmem is None:
+                return [("inconclusive-pattern", "in-memory ordering draw not understood")], info
+        elif len(perms) > 1:
+            return [("inconclusive-pattern", "several ordering draws in memory")], info
+        if len(unis) == 1:
+            n_eval = int(np.size(unis[0]["result"]))
+            if idx_inmem is not None:
+                idx_inmem = idx_inmem[:n_eval]
+    if idx_inmem is not None:
+        idx = idx_inmem
+        if len(idx) != n_eval or len(np.unique(idx)) != len(idx) or idx.min() < 0 or idx.max() >= N:
+            bad.append(("evaluation-order-invalid", "in-memory evaluation order repeats or leaves the library"))
+            return bad, info
+    elif randomize:
         if len(choices) != 1 or len(np.atleast_1d(choices[0]["result"])) != n_eval:
             return [("inconclusive-pattern", "expected one choice() of %d rows, saw %d" % (n_eval, len(choices)))], info
         idx = np.asarray(choices[0]["result"], dtype=int)
         if len(np.unique(idx)) != len(idx) or idx.min() < 0 or idx.max() >= N:
             bad.append(("evaluation-order-invalid", "shuffled evaluation order repeats or leaves the library"))
             return bad, info
-    else:
+    elif idx_inmem is None:
         idx = np.arange(n_eval)
     if len(unis) != 1 or np.size(unis[0]["result"]) != n_eval:
         return [("inconclusive-pattern", "expected one uniform(size=%d) draw from the sampler's generator, saw %s"
@@ -196,25 +253,25 @@ def check_rejection_history(pb, opts, out, lls_all, events, ll_lib, expect_lls=T
         la = np.asarray(lls_all, dtype=float)
         if la.shape != ll_eval.shape:
             bad.append(("all-logprobs-shape", "second return value has %r entries for %d evaluated rows" % (la.shape, n_eval)))
-        elif not np.array_equal(la, ll_eval, equal_nan=True):
-            k = int(np.argmax(~((la == ll_eval) | (np.isnan(la) & np.isnan(ll_eval)))))
+        elif not (np.array_equal(la, ll_eval, equal_nan=True) if pb.exact else
+                  np.allclose(la, ll_eval, rtol=1e-7, atol=1e-7, equal_nan=True)):
+            k = int(np.argmax(~(np.isclose(la, ll_eval, rtol=0 if pb.exact else 1e-7, atol=0 if pb.exact else 1e-7) | (np.isnan(la) & np.isnan(ll_eval)))))
             bad.append(("all-logprobs-order", "all-logprobs[%d]=%r but the likelihood of the row evaluated there (library row %d) is %r"
                         % (k, la[k], idx[k], ll_eval[k])))
         ll_used = la if la.shape == ll_eval.shape else ll_eval
     else:
         ll_used = ll_eval
     max_post = opts.get("max_posterior_samples")
-    acc, border, ratio = expected_acceptance(ll_used, u, max_post)
+    acc, border, ratio = expected_acceptance(ll_used, u, max_post, 1e-13 if pb.exact else 1e-6)
     info.update(n_eval=n_eval, n_accept=len(acc), borderline=border, idx=idx, acc=acc, u=u, ll_eval=ll_used)
     if border:
         return [("borderline", "uniform within 1e-13 of the acceptance ratio")], info
     nlin = int(opts.get("n_linear_samples", 1))
     want_tags = np.repeat(idx[acc], nlin)
     got_P = np.asarray(out["P"].to_value("d"), dtype=float)
-    got_tags = np.searchsorted(pb.tagP, got_P)
-    ok_member = (got_tags < N) & (pb.tagP[np.minimum(got_tags, N - 1)] == got_P)
+    got_tags, ok_member = tags_of(pb, got_P)
     if not np.all(ok_member):
-        bad.append(("row-invented", "a returned period is not the period of any library row (bitwise)"))
+        bad.append(("row-invented", "a returned period is not the period of any library row"))
         return bad, info
     if len(got_tags) != len(want_tags) or not np.array_equal(got_tags, want_tags):
         # sub-classify
@@ -239,7 +296,8 @@ def check_rejection_history(pb, opts, out, lls_all, events, ll_lib, expect_lls=T
         col = out[name]
         got = np.asarray(col.to_value(gen.U(unit)) if unit else getattr(col, "value", col), dtype=float)
         want = np.asarray(pb.lib[name].to_value(gen.U(unit)) if unit else pb.lib[name].value, dtype=float)[got_tags]
-        if not np.array_equal(got, want):
+        same = np.array_equal(got, want) if pb.exact else np.allclose(got, want, rtol=1e-11, atol=1e-11)
+        if not same:
             bad.append(("row-modified", "column %s of a returned row differs from its library row" % name))
             break
     # best sample always survives (unless truncated away)
@@ -291,7 +349,7 @@ def check_linear_draws(pb, opts, out, info, events, worker_events=None):
         cnd = max(ref["condAinv"], 1.0)
         sd = np.sqrt(np.abs(np.diag(ref["A"])))
         # relative to the posterior width; round-off of the kernel's inverse ~ cond * eps
-        tolm = 1e-9 + 256 * oracle.EPS * cnd
+        tolm = 1e-9 + 256 * oracle.EPS * cnd + (0.0 if pb.exact else 1e-7)
         dm = np.max(np.abs(mean - ref["a"]) / np.maximum(sd, 1e-300))
         dc = np.max(np.abs(cov - ref["A"]) / np.outer(sd, sd))
         worst = max(worst, dm / tolm, dc / tolm)
@@ -345,12 +403,22 @@ def check_logprob_columns(pb, opts, out, row_tags, ll_lib):
 # ---------------------------------------------------------------- one monitored rejection_sample call
 def one_session(ctx, i, rng, return_logprobs=False, force=None, problem_kw=None, exc_classifier=None, inject=None):
     from thejoker import TheJoker
-    pb = make_problem(rng, **(problem_kw or {}))
+    kw_ = dict(problem_kw or {})
+    if "lib_units" not in kw_ and rng.random() < 0.3:
+        # a library stored in other (equivalent) units: only on moderately informative data, where one-ulp
+        # conversion differences cannot move a likelihood by more than the widened tolerances
+        kw_["lib_units"] = "random"
+        if kw_.get("profile") not in ("flat", "moderate"):
+            kw_["profile"] = str(rng.choice(["flat", "moderate"]))
+    pb = make_problem(rng, **kw_)
     N = pb.N
     in_memory = bool(rng.random() < 0.45)
     as_file = (not in_memory) and bool(rng.random() < 0.5)
     opts = dict(in_memory=in_memory, n_linear_samples=int(rng.choice([1, 1, 3])))
     trunc = str(rng.choice(["none", "one", "k", "more"], p=[.4, .15, .3, .15]))
+    if in_memory and rng.random() < 0.3:
+        # file options passed in memory as well: ignored or honoured, the bookkeeping must stay right either way
+        opts["randomize_prior_order"] = True
     if not in_memory:
         if rng.random() < 0.5:
             opts["randomize_prior_order"] = True
@@ -382,7 +450,8 @@ def one_session(ctx, i, rng, return_logprobs=False, force=None, problem_kw=None,
         opts.update(force)
     seed = int(rng.integers(0, 2 ** 31))
     desc = dict(index=i, N=N, profile=pb.profile, injected=inj_kind, opts=dict(opts), as_file=as_file, seed=seed,
-                n_epochs=len(pb.lin.t), poly_trend=pb.ps["poly_trend"], n_offsets=pb.ps["n_offsets"])
+                n_epochs=len(pb.lin.t), poly_trend=pb.ps["poly_trend"], n_offsets=pb.ps["n_offsets"],
+                lib_units=pb.lib_units)
     recgen.reset()
     g = recgen.make(seed)
     joker = TheJoker(pb.prior, rng=g, tempfile_path=ctx.tmpdir)
@@ -463,14 +532,14 @@ def check_iterative_history(pb, opts, ret, events, ll_lib, eval_log):
             return bad, info
     u = np.asarray(unis[-1]["result"], dtype=float).ravel()
     ll_eval = ll_lib[ev]
-    acc, border, ratio = expected_acceptance(ll_eval, u, None)
+    acc, border, ratio = expected_acceptance(ll_eval, u, None, 1e-13 if pb.exact else 1e-6)
     if border:
         return [("borderline", "uniform within 1e-13 of the acceptance ratio")], info
     want = ev[acc[:n_req]]
     info.update(n_accept_last=len(acc), u=u, ev=ev)
     got_P = np.asarray(ret["P"].to_value("d"), dtype=float)
-    tags = np.searchsorted(pb.tagP, got_P)
-    if np.any(tags >= N) or np.any(pb.tagP[np.minimum(tags, N - 1)] != got_P):
+    tags, okm = tags_of(pb, got_P)
+    if not np.all(okm):
         bad.append(("row-invented", "a returned period is not any library row's period"))
         return bad, info
     info["row_tags"] = tags
@@ -494,7 +563,7 @@ def check_iterative_history(pb, opts, ret, events, ll_lib, eval_log):
         col = ret[name]
         got = np.asarray(col.to_value(gen.U(unit)) if unit else getattr(col, "value", col), dtype=float)
         wantc = np.asarray(pb.lib[name].to_value(gen.U(unit)) if unit else pb.lib[name].value, dtype=float)[tags]
-        if not np.array_equal(got, wantc):
+        if not (np.array_equal(got, wantc) if pb.exact else np.allclose(got, wantc, rtol=1e-11, atol=1e-11)):
             bad.append(("row-modified", "column %s of a returned row differs from its library row" % name))
             break
     return bad, info
@@ -505,6 +574,10 @@ def iterative_session(ctx, i, rng, return_logprobs=False, problem_kw=None):
     kw = dict(problem_kw or {})
     kw.setdefault("N", int(rng.choice([50, 200, 1000, 5000, 20000], p=[.2, .3, .3, .15, .05])))
     kw.setdefault("profile", str(rng.choice(["flat", "moderate", "sharp", "spike"], p=[.3, .4, .2, .1])))
+    if "lib_units" not in kw and rng.random() < 0.25:
+        kw["lib_units"] = "random"
+        if kw["profile"] not in ("flat", "moderate"):
+            kw["profile"] = "moderate"
     pb = make_problem(rng, **kw)
     N = pb.N
     in_memory = bool(rng.random() < 0.45)
@@ -531,13 +604,15 @@ def iterative_session(ctx, i, rng, return_logprobs=False, problem_kw=None):
     if inj is not None:
         ll_lib = inj["fn"](np.arange(N), ll_lib.copy())
     seed = int(rng.integers(0, 2 ** 31))
-    desc = dict(index=i, N=N, profile=pb.profile, injected=inj_kind, opts=dict(opts), as_file=as_file, seed=seed)
+    desc = dict(index=i, N=N, profile=pb.profile, injected=inj_kind, opts=dict(opts), as_file=as_file, seed=seed,
+                lib_units=pb.lib_units)
     recgen.reset()
     g = recgen.make(seed)
     joker = TheJoker(pb.prior, rng=g, tempfile_path=ctx.tmpdir)
     lib_arg = lib_file(pb, ctx.tmpdir, "ilib%d.hdf5" % i) if as_file else pb.lib
     Inject.active = inj
     Inject.tagP = pb.tagP
+    Inject.tagger = (lambda P_: tags_of(pb, P_)[0])
     Inject.EVAL_LOG = []
     raised = None
     ret = None
@@ -548,6 +623,7 @@ def iterative_session(ctx, i, rng, return_logprobs=False, problem_kw=None):
     finally:
         Inject.active = None
         Inject.tagP = None
+        Inject.tagger = None
         if as_file:
             os.unlink(lib_arg)
     events = list(recgen.EVENTS)
